@@ -1582,7 +1582,19 @@ func (w *c16World) check(at string) {
 		class := "C16-serial-missing-from-crl"
 		extra := map[string]any{"serial": serial, "issuer": is.Name, "served_crl_number": rl.Number.String(), "via": e.Via, "revocation_record_visible": st.found && st.rt > 0,
 			"auto_rebuild_now": w.cfg.Auto, "auto_rebuild_off_when_first_reported": e.AutoOffAtSuccess, "complete_crl_built_since_report": builtAfter, "crl_rotate_succeeded_since_report": e.rotatedAfter}
-		if w.cut != nil && w.cut.RecordExisted[serial] && !w.cfg.Auto && st.found && st.rt > 0 {
+		// The most specific signature first: a revoked CA certificate that is at present imported as an issuer
+		// is missing with or without any interruption, so an interruption elsewhere does not explain it.
+		if c.IsIssuer >= 0 && w.iss[c.IsIssuer].ID != "" && class == "C16-serial-missing-from-crl" {
+			if resp, err := w.do(logical.ReadOperation, "issuer/"+w.iss[c.IsIssuer].ID, nil); c16OK(resp, err) && resp != nil {
+				if rv, _ := resp.Data["revoked"].(bool); !rv {
+					// the revoked certificate is a CA certificate that is (now) imported as an issuer whose entry is
+					// not marked revoked: the CRL builder skips revocation records of issuer certificates
+					class = "C16-revoked-ca-cert-missing-from-crl-while-imported-as-issuer"
+					extra["imported_as_issuer"] = w.iss[c.IsIssuer].Name
+				}
+			}
+		}
+		if class == "C16-serial-missing-from-crl" && w.cut != nil && w.cut.RecordExisted[serial] && !w.cfg.Auto && st.found && st.rt > 0 {
 			if nb := w.cut.numBefore[is.ID]; nb != nil && nb.Cmp(rl.Number) == 0 {
 				// F5 signature: the record exists, the CRL build that followed it was interrupted, no build
 				// has succeeded since (the served CRL is still the one from before), auto-rebuild is off.
@@ -1592,16 +1604,6 @@ func (w *c16World) check(at string) {
 					"operation_interrupted_after_record_was_written": w.cut.Kind + " " + w.cut.At,
 					"crl_number_before_interruption": nb.String(), "crl_number_served_now": rl.Number.String(),
 					"no_complete_build_succeeded_since": true,
-				}
-			}
-		}
-		if c.IsIssuer >= 0 && w.iss[c.IsIssuer].ID != "" && class == "C16-serial-missing-from-crl" {
-			if resp, err := w.do(logical.ReadOperation, "issuer/"+w.iss[c.IsIssuer].ID, nil); c16OK(resp, err) && resp != nil {
-				if rv, _ := resp.Data["revoked"].(bool); !rv {
-					// the revoked certificate is a CA certificate that is (now) imported as an issuer whose entry is
-					// not marked revoked: the CRL builder skips revocation records of issuer certificates
-					class = "C16-revoked-ca-cert-missing-from-crl-while-imported-as-issuer"
-					extra["imported_as_issuer"] = w.iss[c.IsIssuer].Name
 				}
 			}
 		}
